@@ -408,3 +408,29 @@ mut('c13-bn-cma-before-increment', ['C13'], 'cumulative average factor read befo
 mut('c13-bn-writeback-swapped', ['C13'], 'wrapper writes the new running variance into running_mean', [(NF, "    if new_running_mean is not None: running_mean.data = new_running_mean\n    if new_running_var is not None: running_var.data = new_running_var", "    if new_running_mean is not None: running_mean.data = new_running_var\n    if new_running_var is not None: running_var.data = new_running_mean")], rules=['C13.BN-UPDATE'])
 mut('c13-twin-dropout-gt', ['C13'], 'mask written as np.where(draw > p, 1, 0)', [(LY, "np.where(random_data <= self.p, 0, 1)", "np.where(random_data > self.p, 1, 0)")], expect='silent')
 mut('c13-twin-bn-update-reassoc', ['C13'], 'running mean update re-associated', [(K, "running_mean = mean * momentum + running_mean * (1 - momentum)", "running_mean = running_mean + momentum * (mean - running_mean)")], expect='silent')
+
+# ------------------------------------------------------------------------------------------------ AXIS typestate (C01 / C05)
+mut('c01-mean-tuple-axes (revert of fix)', ['C01'], 'mean_backward tests `i in axis` on raw tuple dims',
+    [(K, "    if isinstance(axis, int): axis = [axis]\n    axis = [ax + len(a_shape) if ax < 0 else ax for ax in axis]\n", "    if isinstance(axis, int): \n        if axis < 0: axis = len(a_shape) + axis\n        axis = [axis]\n")], rules=['C01.AXIS'])
+mut('c01-unbind-no-normalise', ['C01'], 'unbind_backward compares positions with a raw negative axis', [(K, "    if axis < 0: axis = len(a_shape) + axis\n    axes = tuple(", "    axes = tuple(")], rules=['C01.AXIS'])
+mut('c05-flatten-raw-dims (revert of fix)', ['C05'], 'flatten special-cases -1 and order-compares raw dims',
+    [(F, "    start = start_dim + ndim if start_dim < 0 else start_dim\n    end = end_dim + ndim if end_dim < 0 else end_dim\n", "    start = start_dim if start_dim != -1 else len(shape)\n    end = end_dim if end_dim != -1 else len(shape)\n")], rules=['C05.AXIS'])
+mut('c05-squeeze-tuple-subscript (revert of fix)', ['C05'], 'squeeze_forward subscripts the shape with a tuple dim',
+    [(K, "    if isinstance(axis, (tuple, list)):\n        axis = tuple(ax for ax in axis if a.shape[ax] == 1)\n    can_apply = len(a.shape) > 0 and (axis is None or isinstance(axis, tuple) or a.shape[axis] == 1)", "    can_apply = len(a.shape) > 0 and (axis is None or a.shape[axis] == 1)")], rules=['C05.AXIS'])
+mut('c01-unfold-dim-wrapper-no-normalise', ['C01', 'C05'], 'unfold_dim wrapper no longer normalises a negative dimension (kernel builds [slice]*(dimension+1))',
+    [(F, "    if dimension < 0:\n        dimension += x.ndim\n", "")], rules=['C01.AXIS', 'C05.AXIS'])
+mut('c01-twin-axis-modulo', ['C01'], 'unbind_backward normalises with %', [(K, "    if axis < 0: axis = len(a_shape) + axis\n", "    axis = axis % len(a_shape)\n")], expect='silent')
+
+# ------------------------------------------------------------------------------------------------ C09
+mut('c09-bce-logits-shift-sign (revert of fix)', ['C09'], 'BCE-with-logits shifts by -relu(x): exp(relu(x)) overflows', [(K, "    tn = relu_forward(-y_pred)\n    loss = ", "    tn = -relu_forward(y_pred)\n    loss = ")], rules=['C09.HAZARD'])
+mut('c09-selu-backward-exp (revert of fix)', ['C09'], 'selu_backward evaluates exp(a) on the positive branch (inf * 0)', [(K, "alpha * np.exp(np.minimum(a, 0)) * (a <= 0)", "alpha * np.exp(a) * (a <= 0)")], rules=['C09.HAZARD'])
+mut('c09-ce-eps-log (revert of fix)', ['C09'], 'cross entropy = nll(log(softmax + epsilon))', [(K, "    log_softmax = log_softmax_forward(y_pred, 1)\n    log_likelihood = nll_loss_forward(log_softmax, y_true)", "    log_softmax = np.log(softmax_forward(y_pred, 1) + epsilon)\n    log_likelihood = nll_loss_forward(log_softmax, y_true)")], rules=['C09.EPSCLIP'])
+mut('c09-log-softmax-backward-eps', ['C09'], 'log_softmax_backward divides by (softmax + epsilon)', [(K, "    a_grad = grad - softmax * grad.sum(axis=axis, keepdims=True)\n", "    a_grad = (grad / (softmax + epsilon) - grad.sum(axis=axis, keepdims=True)) * softmax\n")], rules=['C09.EPSCLIP'])
+mut('c09-softmax-no-shift', ['C09'], 'softmax_forward without the max shift', [(K, "    shiftx = a - a.max(axis=axis, keepdims=True) \n", "    shiftx = a\n")], rules=['C09.HAZARD'])
+mut('c09-softmax-global-max', ['C09'], 'softmax_forward shifts by the global maximum (rows far below it underflow to 0/0)', [(K, "shiftx = a - a.max(axis=axis, keepdims=True)", "shiftx = a - a.max()")], rules=['C09.HAZARD'])
+mut('c09-log-softmax-unshifted-lse', ['C09'], 'log_softmax computes log(sum(exp(a))) without the shift', [(K, "    exp = np.exp(substract)\n", "    exp = np.exp(a)\n")], rules=['C09.HAZARD'])
+mut('c09-sigmoid-exp-ratio', ['C09'], 'sigmoid written as exp(a) / (1 + exp(a)) (inf / inf)', [(K, "return 1/(1 + np.exp(-a))", "return np.exp(a)/(1 + np.exp(a))")], rules=['C09.HAZARD'])
+mut('c09-selu-forward-unclamped', ['C09'], 'selu_forward without the minimum clamp on the exp branch', [(K, "np.minimum(0, alpha * (np.exp(a) - 1))", "(a <= 0) * alpha * (np.exp(a) - 1)")], rules=['C09.HAZARD'])
+mut('c09-tanh-via-exp', ['C09'], 'tanh computed from exp(2a)', [(K, "return np.tanh(a)", "return (np.exp(2*a) - 1) / (np.exp(2*a) + 1)")], rules=['C09.HAZARD'])
+mut('c09-twin-softmax-temp', ['C09'], 'softmax shift through a temporary', [(K, "    shiftx = a - a.max(axis=axis, keepdims=True) \n", "    m = a.max(axis=axis, keepdims=True)\n    shiftx = a - m\n")], expect='silent')
+mut('c09-twin-bce-logits-maximum', ['C09'], 'BCE-with-logits shift written with np.maximum', [(K, "    tn = relu_forward(-y_pred)\n    loss = ", "    tn = np.maximum(-y_pred, 0)\n    loss = ")], expect='silent')
